@@ -307,6 +307,12 @@ func quietLog(f *ast.File) bool {
 // stmtPointed lists the files whose shared fields are read and written outside any lock (C20): every
 // statement boundary becomes a scheduling point.
 func stmtPointed(fn string) bool {
+	if strings.Contains(fn, "server/mongodb/collection_") || strings.HasSuffix(fn, "server/mongodb/repository_mongo.go") {
+		// the repository layer: a point before every statement that uses the receiver (the statement that issues the
+		// database command) separates "the command's arguments were built" from "the command is issued"; the points
+		// are sites "mongodb/<file>:<line>" and only scenarios that ask for them park there
+		return true
+	}
 	return strings.HasSuffix(fn, "client/pkg/internal/datatypes/transaction.go") ||
 		strings.HasSuffix(fn, "client/pkg/internal/datatypes/wired.go")
 }
@@ -336,6 +342,9 @@ func rewriteStmtPoints(fset *token.FileSet, pkg *packages.Package, f *ast.File, 
 				local[fd.Name.Name] = true
 			}
 		}
+	}
+	if strings.Contains(fn, "server/mongodb/") {
+		base = "mongodb/" + base
 	}
 	point := func(st ast.Stmt) ast.Stmt {
 		site := fmt.Sprintf("%s:%d", base, fset.Position(st.Pos()).Line)
